@@ -79,13 +79,24 @@ def defs_of_local(fn, l):
     return fn.defs.get(l, [])
 
 
-def multi_def_values(fn, l):
-    """for a multi-def local: list of (block, guards, expr) per definition"""
+def multi_def_values(fn, l, _depth=0, _seen=None):
+    """for a multi-def local: list of (block, guards, expr) per definition.  A definition that merely forwards
+    another multi-definition temporary (`_0 = move _6` after the arms of a match assigned `_6`, as left by an inlined
+    helper's return slot) is replaced by that temporary's definitions"""
     out = []
+    seen = _seen if _seen is not None else {l}
     for d in fn.defs.get(l, []):
         kind, bi, si, x = d
         if kind == 'assign':
-            out.append((bi, fn.conds(bi), fn.rvalue_expr(x, bi)))
+            e = fn.rvalue_expr(x, bi)
+            if e[0] == 'var' and e[1] not in seen and _depth < 4 and not fn.local_name(e[1]) and e[1] not in fn.mut_scalars and len(fn.defs.get(e[1], [])) > 1 \
+                    and x['r'] == 'use' and x['a'].get('o') in ('copy', 'move') and not x['a']['pl']['p']:
+                seen.add(e[1])
+                inner = multi_def_values(fn, e[1], _depth + 1, seen)
+                if inner:
+                    out.extend(inner)
+                    continue
+            out.append((bi, fn.conds(bi), e))
         elif kind == 'call':
             out.append((bi, fn.conds(bi), fn.call_expr(x, bi)))
     return out
@@ -544,6 +555,8 @@ def maps_num_actions(crate, cf):
     """is cf (closure or fn item) `|info| info.num_actions()` / `PlayerInfoset::num_actions` / `|info| info.actions.len()`?"""
     if cf is None:
         return False
+    if isinstance(cf, tuple):
+        return cf[0] == 'fn' and short(cf[1]) == 'num_actions'
     if short(cf.name) == 'num_actions' or any(short(p) == 'num_actions' for _, _, p in cf.calls()):
         return True
     try:
